@@ -22,7 +22,7 @@ ID = "C14"
 LEVEL = "model_checking"
 TECHNIQUE = "explicit-state BFS over the real cache objects against a policy transition relation + exhaustive preemption-bounded interleavings (baton scheduler) with a linearizability oracle"
 RULE = ("A: LRUCache/HybridCache/SimpleCache/DiskCache(+/- in-memory LRU), max_size 1..3, keys a,b,c, values 1,2, durations 0,2,3: BFS over "
-        "put/get/clear(/reopen) to depth D from the implementation's own state; contains/len read at every state. B: every 2-thread program "
+        "put/get/clear(/reopen) to depth D (quick: lru 5, hybrid 4, simple 3, disk 3; thorough: 7/5/4/4) from the implementation's own state; contains/len read at every state. B: every 2-thread program "
         "with 1..2 operations per thread on colliding keys, all interleavings with <= 2 preemptions. C: every history of length <= 3 x every "
         "assignment of its steps to two forked processes")
 ASSUMPTIONS = ["shared mode is explored at the granularity of manager-proxy calls (each is one serialized RPC in reality)",
